@@ -139,6 +139,50 @@ def read(node):
     return keys, prefixes
 
 
+def defaults(node):
+    """Literal defaults of the Keyvalues accessors used by a reader:
+    `.int('k', 16)`, `.float('k')`, `.bool('k', True)`, `.vec('k', 0, 0, 0)`, `tree['k', 'text']`.
+    An accessor called without a default gets the accessor's own (`0`, `0.0`, `False`, `0 0 0`)."""
+    out = []
+    implicit = {'int': '0', 'float': '0.0', 'bool': 'False', 'vec': '0.0 0.0 0.0'}
+    for n in ast.walk(node):
+        if isinstance(n, ast.Call) and isinstance(n.func, ast.Attribute) and n.func.attr in implicit \
+                and n.args and _const(n.args[0]) is not None:
+            key = _const(n.args[0])
+            rest = n.args[1:]
+            if not rest:
+                d = implicit[n.func.attr]
+            else:
+                try:
+                    d = ' '.join(repr(ast.literal_eval(a)) for a in rest)
+                except Exception:
+                    d = 'expr:' + ' '.join(ast.unparse(a) for a in rest)
+            out.append((n.func.attr, key, d))
+        elif isinstance(n, ast.Subscript) and isinstance(n.slice, ast.Tuple) and len(n.slice.elts) == 2 \
+                and _const(n.slice.elts[0]) is not None:
+            key = _const(n.slice.elts[0])
+            try:
+                d = repr(ast.literal_eval(n.slice.elts[1]))
+            except Exception:
+                d = 'expr:' + ast.unparse(n.slice.elts[1])
+            out.append(('str', key, d))
+    # `if v.name == "key": x = conv_bool(v.value, default=True)` / `Vec.from_str(v.value, 255, 255, 255)`
+    for n in ast.walk(node):
+        if isinstance(n, ast.If) and isinstance(n.test, ast.Compare) and len(n.test.comparators) == 1 \
+                and _const(n.test.comparators[0]) is not None:
+            key = _const(n.test.comparators[0])
+            for st in n.body:
+                for c in ast.walk(st):
+                    if isinstance(c, ast.Call) and isinstance(c.func, ast.Attribute) and c.func.attr in ('conv_bool', 'from_str'):
+                        extra = list(c.args[1:]) + [k.value for k in c.keywords]
+                        try:
+                            d = ' '.join(repr(ast.literal_eval(a)) for a in extra)
+                        except Exception:
+                            d = 'expr:' + ' '.join(ast.unparse(a) for a in extra)
+                        out.append((c.func.attr, key, d))
+    return out
+
+
 def _uniq(xs):
     out = []
     for x in xs:
@@ -174,7 +218,19 @@ def generate(repo):
         return fns[-1]
 
     rows = []
+    dflts = []
     for tname, writers, readers in PAIRS:
+        for c, f in readers:
+            if tname in ('Strata2DViewport', 'Strata3DViewport'):
+                continue        # the viewport reader is listed under VMF
+            for kind, key, d in defaults(find(c, f)):
+                if d.startswith('expr:') and d[5:] in top and isinstance(top[d[5:]], ast.Assign):
+                    try:
+                        d = repr(ast.literal_eval(top[d[5:]].value))      # module constant (CURRENT_HAMMER_VERSION …)
+                    except Exception:
+                        pass
+                if (tname, kind, key, d) not in dflts:
+                    dflts.append((tname, kind, key, d))
         wk, wp, wb, wbp, rk, rp = [], [], [], [], [], []
         for c, f in writers:
             k, p, b, bp = written(find(c, f))
@@ -210,5 +266,9 @@ def generate(repo):
         L.append(f'    writtenBlockPrefixes := {lst(wbp)},')
         L.append(f'    readKeys := {lst(rk)},')
         L.append(f'    readPrefixes := {lst(rp)} }}' + (',' if i + 1 < len(rows) else ''))
+    L += [']', '', '/-- literal defaults of the readers: (class, accessor, key, default) -/',
+          'def defaults : List (String × String × String × String) := [']
+    for i, (t, kind, key, d) in enumerate(dflts):
+        L.append(f'  ({lean_string(t)}, {lean_string(kind)}, {lean_string(key)}, {lean_string(d)})' + (',' if i + 1 < len(dflts) else ''))
     L += [']', '', 'end Gen.VmfKeys']
     return '\n'.join(L) + '\n'
